@@ -12,9 +12,23 @@ def gen_bytes(tier, rng):
 def oracle_parse(req, out):
     return parse_shape(out)
 
+EDGE_DATES = ["0000-01-01", "0000-01-02", "9999-12-30", "9999-12-31", "2020-02-29", "1999-12-31"]
+EDGE_ENTRIES = ["23:00 - 0:30>", "0:30> - ?", "<23:00 - 1:00", "<23:00 - ?", "0:00> - 23:59>", "<0:00 - <0:00", "<24:00 - 24:00", "12:00am> - ?",
+                "8:00 - 9:00", "-1m", "5124095576030431h", "24:00 - ?", "8:00 - 7:59>", "<8:00-8:00>"]
+
+def edge_docs(clock_dates):
+    """the first and the last days of the calendar (and the days around the harness' clock) with every kind of shifted
+       time: whatever looks at the neighbouring day of a record (warnings, --now, periods, --fill) meets its limits here"""
+    out = []
+    for d in EDGE_DATES + clock_dates:
+        for e in EDGE_ENTRIES:
+            out.append(("%s\n    %s\n" % (d, e)).encode())
+            out.append(("%s (8h!)\n    1h\n    %s text\n\n%s\n    2h\n" % (d, e, d)).encode())
+    return out
+
 def gen_eval(tier, rng):
     n = 250 if tier == "quick" else 20000
-    out = []
+    out = ["eval-all " + b.hex() for b in edge_docs(["2020-06-14", "2020-06-15", "2020-06-16"])]
     for b in byte_stream(tier, rng, n, n // 4, 2):
         if len(b) < 5000:
             out.append("eval-all " + (b.hex() if b else "-"))
